@@ -20,6 +20,7 @@ from typing import List, Optional, Tuple
 
 from xdis.instruction import Instruction
 from xdis.opcodes.format.basic import format_IS_OP, format_RAISE_VARARGS_older
+from xdis.util import better_repr
 
 
 def extended_format_binary_op(
@@ -393,7 +394,12 @@ def extended_format_BUILD_CONST_KEY_MAP(opc, instructions):
             assert len(arglist) == len(key_values)
             arg_pairs = []
             for i in range(len(arglist)):
-                arg_pairs.append(f"{key_values[i]}: {arglist[i]}")
+                try:
+                    key = f"{key_values[i]}"
+                except ValueError:
+                    # An int key too large for Python 3.11+ to show in decimal.
+                    key = better_repr(key_values[i])
+                arg_pairs.append(f"{key}: {arglist[i]}")
             args_str = ", ".join(arg_pairs)
             return "{" + args_str + "}", instructions[i].start_offset
     return "", None
